@@ -220,6 +220,9 @@ func (c *fragCtx) expr(e ast.Expr) string {
 		}
 		return "(fun " + strings.Join(binders, " ") + " => " + body + ")"
 	case *ast.SelectorExpr:
+		if fv, ok := c.fieldOf(x); ok {
+			return fv
+		}
 		// a field of a struct value
 		if selInfo, ok := c.f.pkg.TypesInfo.Selections[x]; ok && selInfo.Kind() == types.FieldVal && len(selInfo.Index()) == 1 {
 			if st, ok := c.typeOf(x.X).Underlying().(*types.Struct); ok && st.NumFields() >= 2 {
@@ -404,6 +407,9 @@ func (c *fragCtx) call(x *ast.CallExpr) string {
 // selectorCall: library functions with assumed semantics, and strings.Builder methods.
 func (c *fragCtx) selectorCall(x *ast.CallExpr, sel *ast.SelectorExpr) string {
 	info := c.f.pkg.TypesInfo
+	if t, ok := c.readerCall(x, sel); ok {
+		return t
+	}
 	if pid, ok := sel.X.(*ast.Ident); ok {
 		if pn, ok := info.Uses[pid].(*types.PkgName); ok && pn.Imported().Path() == "strings" {
 			switch sel.Sel.Name {
@@ -493,6 +499,14 @@ func (c *fragCtx) appendOf(e ast.Expr) (base ast.Expr, tail string, ok bool) {
 
 // rhs translates the right-hand side of an assignment (append / make / composite literals allowed).
 func (c *fragCtx) rhs(e ast.Expr, t types.Type) string {
+	if id, ok := e.(*ast.Ident); ok && id.Name == "nil" && t != nil {
+		if _, isNil := c.f.pkg.TypesInfo.Uses[id].(*types.Nil); isNil {
+			switch t.Underlying().(type) {
+			case *types.Slice, *types.Map:
+				return c.zero(t) // a nil slice / map is the empty one (values only)
+			}
+		}
+	}
 	if call, ok := e.(*ast.CallExpr); ok {
 		if id, ok := call.Fun.(*ast.Ident); ok {
 			if _, isB := c.f.pkg.TypesInfo.Uses[id].(*types.Builtin); isB {
